@@ -45,6 +45,22 @@ def case(g, tier, ci):
         ops.append({"op": "el.new", "id": "x"})
         ops.append({"op": "el.addArray", "id": "x", "ch": 1, "wfm": [q(dyadic(r)) for _ in range(N)], "SR": enc(SR),
                     "kw": [["m1", [0] * N], ["m2", [0] * (N + r.choice([-1, 1, 3]))]], "_errclass": True})
+    if r.random() < 0.35:
+        # a query first (it caches SR/duration), then an edit that may make the channels unequal, then everything again
+        ops.append({"op": r.choice(["el.validate", "el.points", "el.duration", "el.SR"]), "id": "e"})
+        bch = [o for o in ops if o["op"] == "el.addBP" and o["id"] == "e"]
+        if bch:
+            tgt = r.choice(bch)
+            first = next((o for o in ops if o["op"] == "bp.insert" and o["id"] == tgt["bp"] and o["fn"] != "waituntil"), None)
+            if first is not None and not first.get("name"):
+                fn = first["fn"] if isinstance(first["fn"], str) else first["fn"]["name"].rstrip("0123456789")
+                which = [tgt["ch"]] if r.random() < 0.7 else [o["ch"] for o in bch]
+                nd = r.randint(2, 30)
+                for ch in which:
+                    ops.append({"op": "el.changeDur", "id": "e", "ch": ch, "name": fn, "dur": enc(nd / SR), "all": False})
+        if r.random() < 0.3:
+            ops.append({"op": "el.copy", "id": "e", "to": "e2"})
+            ops += [{"op": "el.validate", "id": "e2"}, {"op": "el.points", "id": "e2"}]
     ops += [{"op": "el.validate", "id": "e"}, {"op": "el.points", "id": "e"}, {"op": "el.duration", "id": "e"},
             {"op": "el.SR", "id": "e"}, {"op": "el.getArrays", "id": "e", "time": r.random() < 0.5}, {"op": "el.channels", "id": "e"},
             {"op": "sq.new", "id": "s"}, {"op": "sq.setSR", "id": "s", "v": enc(SR)},
